@@ -303,6 +303,11 @@ func (s *sshSimulatorService) Handle(ctx context.Context, conn net.Conn) error {
 						}
 
 						payload := decoder.String()
+						if decoder.LastError() != nil {
+							// a string that does not fit is not consumed: stop
+							break
+						}
+
 						payloads = append(payloads, payload)
 					}
 
@@ -325,6 +330,11 @@ func (s *sshSimulatorService) Handle(ctx context.Context, conn net.Conn) error {
 						}
 
 						payload := decoder.String()
+						if decoder.LastError() != nil {
+							// a string that does not fit is not consumed: stop
+							break
+						}
+
 						payloads = append(payloads, payload)
 					}
 
